@@ -165,14 +165,17 @@ pub fn run(quick: bool, seed: u64, work: &str) -> Out {
     let bytes_dom: Vec<i64> = vec![0, 1, 5, 4 * mib - 1, 4 * mib, 4 * mib + 1, 64 * mib, 64 * mib + 1, 1 << 40];
     let kinds: Vec<(i64, i64)> = rows_dom.iter().flat_map(|r| bytes_dom.iter().map(move |b| (*r, *b))).collect();
     let max_rg = if quick { 2 } else { 3 };
-    let nodes: Vec<usize> = if quick { vec![1, 2, 3, 8, 64] } else { (1..=64).collect() };
+    let nodes: Vec<usize> = if quick { vec![1, 2, 3, 8, 64] } else { (1..=12).chain([16, 31, 32, 64]).collect() };
+    // length-3 inventories use a reduced kind set (3 row counts x 5 byte sizes around the 4 MiB split threshold): 54^3 x 4 cuts x node counts does not finish
+    let small_kinds: Vec<usize> = kinds.iter().enumerate().filter(|(_, (r, b))| [0, 1, 1000].contains(r) && [0, 4 * mib - 1, 4 * mib, 4 * mib + 1, 1 << 40].contains(b)).map(|(i, _)| i).collect();
     // inventories: every sequence of <= max_rg row groups, cut into files at every set of cut points (<= 3 files),
     // plus one variant with an extra file that has no row group at all.
     let mut invs: Vec<Inv> = Vec::new();
     let names = ["b.parquet", "a.parquet", "c.parquet"]; // deliberately not in sorted order
     for len in 0..=max_rg {
-        sequences(kinds.len(), len, &mut |seq| {
-            let rgs: Vec<(i64, i64)> = seq.iter().map(|i| kinds[*i]).collect();
+        let dom: Vec<usize> = if len >= 3 { small_kinds.clone() } else { (0..kinds.len()).collect() };
+        sequences(dom.len(), len, &mut |seq| {
+            let rgs: Vec<(i64, i64)> = seq.iter().map(|i| kinds[dom[*i]]).collect();
             let cuts = if len == 0 { 1 } else { 1usize << (len - 1) };
             for cut in 0..cuts {
                 let mut files: Vec<Vec<(i64, i64)>> = vec![vec![]];
